@@ -98,6 +98,24 @@ CLAIMS = {
         note="Partial. Assumes the part header text is one byte per character. Sibling agreement of the handlers is C04, the emit grammar is C05.",
         ref="DESIGN.md section 3, C02",
     ),
+    "C10": dict(
+        technique="static analysis: consume-once typestate on all paths of the two stream() generators (path facts + store/read ordering), who-may-read scan, descriptor-shape analysis of cached_property.__get__",
+        text="Decides the structural core of the property: every path that reads the server channel has tested _stream_consumed false and set it before the first read, the consumed case raises the documented error without reading, the cached-body branch replays without reading, no other method reads the channel (is_disconnected sanctioned and recorded); body/json/form are cached_property, which is a non-data descriptor storing under the function's name and wrapping an awaitable in one shared future before storing (the whole compute-once argument under concurrency); the ASGI receive loop ends only after more_body is false, a disconnect raises ClientDisconnect, chunks are yielded; WSGI returns only on an empty read; body is b''.join over exactly self.stream(). Not decided: interleavings beyond the shared-future argument, a misbehaving receive().",
+        note="Trusted: asyncio.ensure_future semantics; descriptor protocol.",
+        ref="DESIGN.md section 3, C10",
+    ),
+    "C17": dict(
+        technique="static analysis: paired-representation update rule on all paths of every mutator (effects on _dict/_list collected with reaching-definition values), constructor freshness, alias scan, mixin/override scan",
+        text="Decides the mechanism the statement's rationale names, not equality with the list-of-pairs model: every mutator of MutableMultiMapping touches both representations or neither on every normal path, for the key and values the statement requires (assignment replaces in place / appends, append adds the pair and the last value, setlist stores the last value and rebuilds the pairs, delete removes from both), or delegates to an audited dunder; the constructor builds _dict from the same fresh list that becomes _list; no method returns the internal containers; pop/popitem/clear/update/setdefault are the inherited mixins; the read views are split as stated and QueryParams/FormData inherit them. This is the weakest claim of the set.",
+        note="Partial. Trusted: typing.MutableMapping mixins, dict last-wins semantics. Loop bodies are analysed with a non-empty-iterable refinement.",
+        ref="DESIGN.md section 3, C17",
+    ),
+    "C18": dict(
+        technique="static analysis: argument provenance of the single URL builder on both gateway branches, folded default-port table and precedence order, path facts of __repr__ for password masking, shape of replace()",
+        text="Decides: both gateway branches of URL.__init__ end in the same _build_url call with the corresponding gateway values (root path + path, query string, server pair, Host header); the Host header test precedes the server branch, the folded default-port table is {http:80, https:443, ws:80, wss:443} indexed by the URL's own scheme, port elision matches the default test, the query is appended only when non-empty; on every __repr__ path with a truthy password the formatted text comes from replace(password=<constant>); replace() defaults the four netloc components to the current ones, writes netloc only inside that branch, nests the password under the user name and delegates the rest to SplitResult._replace. Not decided: netloc surgery for every host shape, Latin-1/UTF-8 path round trip, query helper values.",
+        note="Partial; value-level clauses are outside static reach.",
+        ref="DESIGN.md section 3, C18",
+    ),
 }
 
 NOT_APPLICABLE = {
